@@ -1721,6 +1721,9 @@ def run_c18(report):
             k = 6 if family == "tempfs" else 1
             scen = [every[(shift + ci * 7 + j * 3) % len(every)] for j in range(k)]
         exactly_once_probe(label, make, family, scen, bad, kstats)
+    # histories BEFORE close (class-specific callables between data changes) and gc-only finalisation of every class
+    extra_cov = preclose_probe(random.Random(report.seed * 7919 + 1818), thorough, methods, bad)
+    extra_cov.update(gc_only_probe(thorough, bad))
     fin = finalisers_probe()
     for f in fin:
         if not f["ok"]:
@@ -1780,6 +1783,7 @@ def run_c18(report):
                released_path_between_first_and_repeated_finalisation=["re-created with a canary file", "left absent"],
                pending_findings_seen=sorted(pending_seen),
                traces_validated_against_impl=len(results) - len(bad))
+    cov.update(extra_cov)
     return report.finish(proof, cov, assumptions=[
         "getmeta, lock, getsyspath, getospath, geturl, hassyspath, hasurl, isclosed, check, validatepath, match, "
         "match_glob, desc and the class-specific callables (write_zip, mount, add_fs, which, clean, ...) may answer "
@@ -1789,6 +1793,943 @@ def run_c18(report):
         "default / custom / empty / containing '/', temp_dir None / a private directory, every target and temp_fs "
         "kind, two encodings, the compressions the interpreter supports); a combination whose constructor raises is "
         "recorded under constructor_failures and not judged by C18"])
+
+
+# ------------------------------------------------------------------ C18: histories BEFORE close, gc-only finalisation
+# (a) Every class-specific public callable (by reflection: the public callables of the concrete object the FS base
+#     class does not define - write_zip, write_tar, clean, mount, add_fs, get_fs, iterate_fs, which, delegate_fs, ...)
+#     is called BEFORE close, with each of its argument variants, between data changes; then the filesystem is
+#     finalised (close / with-block / dropped and garbage-collected).  A reference MemoryFS receives the same data
+#     changes; the archive found on the target afterwards (read with zipfile / tarfile) must be one complete archive
+#     of the FINAL reference tree, an archive written by an explicit write_zip / write_tar must be one of the tree at
+#     that moment, a TempFS directory must be gone after clean() and stay gone, the members of a composite (also the
+#     ones mounted / added in the middle of the history) are closed iff auto_close.
+# (b) For EVERY filesystem class the library defines (subclasses of fs.base.FS found by importing every fs.* module)
+#     an instance is built, used, and its last reference dropped without close(): close() must have run exactly once
+#     (FS.__del__: "Auto close the filesystem on exit") and the documented finalisation of the class must be visible
+#     from outside the object.
+
+def archive_tree(zipped, data):
+    """(files {name: bytes}, dirs set) of ONE archive read with the standard library, or a string saying why not."""
+    import zipfile
+    import tarfile
+    files, dirs = {}, set()
+    try:
+        src = io.BytesIO(data)
+        if zipped:
+            with zipfile.ZipFile(src) as z:
+                if z.testzip() is not None:
+                    return "corrupt member"
+                for i in z.infolist():
+                    n = i.filename
+                    if n.endswith("/"):
+                        dirs.add(n.strip("/"))
+                    elif n.strip("/") in files:
+                        return "duplicate member %s" % n
+                    else:
+                        files[n.strip("/")] = z.read(i)
+        else:
+            with tarfile.open(fileobj=src, mode="r") as t:
+                for m in t.getmembers():
+                    if m.isdir():
+                        dirs.add(m.name.strip("/"))
+                    elif m.name.strip("/") in files:
+                        return "duplicate member %s" % m.name
+                    elif m.isfile():
+                        files[m.name.strip("/")] = t.extractfile(m).read()
+    except Exception as e:  # noqa
+        return "unreadable (%s)" % type(e).__name__
+    return files, dirs
+
+
+def tree_of(fsx, top="/"):
+    files, dirs = {}, set()
+    for p, info in fsx.walk.info(top):
+        rel = p[len(top):].strip("/") if top != "/" else p.strip("/")
+        if info.is_dir:
+            dirs.add(rel)
+        else:
+            files[rel] = fsx.readbytes(p)
+    return files, dirs
+
+
+def tree_diff(got, want):
+    if isinstance(got, str):
+        return got
+    gf, gd = got
+    wf, wd = want
+    out = []
+    for n in sorted(set(wf) - set(gf))[:3]:
+        out.append("missing file %s" % n)
+    for n in sorted(set(gf) - set(wf))[:3]:
+        out.append("stale file %s" % n)
+    for n in sorted(n for n in set(gf) & set(wf) if gf[n] != wf[n])[:3]:
+        out.append("stale bytes in %s" % n)
+    for n in sorted(wd - gd)[:3]:
+        out.append("missing directory %s" % n)
+    for n in sorted(gd - wd)[:3]:
+        out.append("stale directory %s" % n)
+    return "; ".join(out)
+
+
+_CHANGE_COUNTER = [0]
+
+
+def gen_change(rnd, ref):
+    """One data change that is valid on (and changes) the reference tree: (method, [args])."""
+    _CHANGE_COUNTER[0] += 1
+    n = _CHANGE_COUNTER[0]
+    files, dirs = sorted(ref.walk.files()), sorted(ref.walk.dirs())
+    kinds = ["write-new", "write-new", "makedir"]
+    if files:
+        kinds += ["overwrite", "overwrite", "append", "remove", "move", "copy"]
+    if len(dirs) > 1:
+        kinds += ["removetree"]
+    kind = rnd.choice(kinds)
+    parent = rnd.choice(["/"] + dirs).rstrip("/")
+    if kind == "write-new":
+        return "writebytes", [parent + "/n%d.bin" % n, b"new %d " % n * rnd.randint(0, 3)]
+    if kind == "makedir":
+        return "makedir", [parent + "/nd%d" % n]
+    if kind == "removetree":
+        return "removetree", [rnd.choice(dirs)]
+    f = rnd.choice(files)
+    if kind == "overwrite":
+        return "writebytes", [f, b"over %d" % n]
+    if kind == "append":
+        return "appendbytes", [f, b"+%d" % n]
+    if kind == "remove":
+        return "remove", [f]
+    return kind, [f, parent + "/%s%d" % (kind[:2], n)]
+
+
+def apply_change(fsx, change, prefix=""):
+    name, args = change
+    args = [prefix + a.lstrip("/") if prefix and isinstance(a, str) else a for a in args]
+    getattr(fsx, name)(*args)
+
+
+def specific_callables(obj, methods):
+    """Public callables of the concrete object that the FS base class does not have under that name at all."""
+    from fs.base import FS
+    return [n for n in public_callables(obj) if n not in methods and not hasattr(FS, n)]
+
+
+class Region(object):
+    """What a write to the target of an ArchStore leaves: the file at the path, or the bytes a file object received
+    since the mark."""
+    def __init__(self, st):
+        self.st = st
+        self.mark()
+
+    def mark(self):
+        f = self.st.fileobj
+        self.pos = 0 if f is None else f.tell()
+
+    def data(self):
+        st = self.st
+        if st.target_kind == "bytesio":
+            return st.fileobj.getvalue()[self.pos:]
+        if st.fileobj is not None and not st.fileobj.closed:
+            st.fileobj.flush()
+        if not os.path.exists(st.target):
+            return b""
+        with open(st.target, "rb") as fh:
+            return fh.read()[self.pos:]
+
+
+def finalise(holder, how):
+    """close / with / gc on holder['obj'] (the only strong reference this module keeps)."""
+    obj = holder["obj"]
+    if how == "close":
+        obj.close()
+    elif how == "with":
+        with obj:
+            pass
+    else:
+        st = holder.get("st")
+        if st is not None:
+            st.obj = None
+        holder["obj"] = None
+        del obj
+        gc.collect()
+
+
+def preclose_archives(rnd, thorough, methods, bad, stats):
+    hows = ("close", "with", "gc")
+    combos = [(z, tk, mk) for z in (True, False) for tk in TARGET_KINDS for mk in TEMP_KINDS]
+    turn = rnd.randrange(3)
+    for ci, (zipped, tk, mk) in enumerate(combos):
+        probe = ArchStore(zipped, tk, mk)
+        try:
+            names = specific_callables(probe.obj, methods)
+        finally:
+            with _Unraisable():
+                probe.cleanup()
+        label = "%s(target=%s, temp_fs=%s)" % ("WriteZipFS" if zipped else "WriteTarFS", tk, mk)
+        for name in names:
+            for variant in (0, 1, 2):
+                # quick: every (class, target, temp_fs, callable, argument variant) with one way of finalising (rotating)
+                for how in (hows if thorough else (hows[(ci + variant + turn) % 3],)):
+                    preclose_archive_case(rnd, zipped, tk, mk, label, name, variant, how, bad, stats)
+
+
+def preclose_archive_case(rnd, zipped, tk, mk, label, name, variant, how, bad, stats, script=None):
+    from fs.memoryfs import MemoryFS
+    st = ArchStore(zipped, tk, mk)
+    ref = MemoryFS()
+    populate(ref)
+    holder = dict(obj=st.obj, st=st)
+    history = []
+    desc = "%s before %s" % (name, how)
+
+    def note(why, verdict="", method=name):
+        bad.append((why, dict(construction=label, how=desc, method=method, verdict=str(verdict)[:300], changed=True,
+                              history=list(history), replay_case=dict(zipped=zipped, target=tk, temp_fs=mk, name=name,
+                                                                      variant=variant, how=how))))
+
+    def changes(k):
+        for _ in range(k):
+            ch = gen_change(rnd, ref)
+            history.append("%s%r" % (ch[0], tuple(a if isinstance(a, str) else "<%d bytes>" % len(a) for a in ch[1])))
+            apply_change(holder["obj"], ch)
+            apply_change(ref, ch)
+            stats["changes"] += 1
+
+    def specific(nm, var):
+        obj = holder["obj"]
+        region = Region(st)
+        before = region.data() if st.fileobj is None else None
+        args, _s = c18_args(obj, nm, var, rnd, st)
+        if args is None:
+            return
+        try:
+            pnames = [p.name for p in inspect.signature(getattr(obj, nm)).parameters.values()
+                      if p.kind not in (p.VAR_POSITIONAL, p.VAR_KEYWORD)]
+        except (TypeError, ValueError):
+            pnames = []
+        history.append("%s(%s)" % (nm, ", ".join("%s=%s" % (p, "<BytesIO>" if isinstance(a, io.BytesIO) else repr(a))
+                                                 for p, a in zip(pnames, args))))
+        verdict = c18_call(obj, nm, args)
+        stats["specific_calls"] += 1
+        stats["specific_seen"].add("%s.%s" % (type(obj).__name__, nm))
+        if "file" not in pnames:
+            return
+        # an archive writer: "write what the filesystem holds now" to the given file / to the constructor's target
+        if verdict != "ok":
+            note("an explicit archive write before close() raised", verdict, nm)
+            return
+        dest = args[pnames.index("file")]
+        if dest is None:
+            data, where = region.data(), "the constructor's target"
+        elif isinstance(dest, io.BytesIO):
+            data, where = dest.getvalue(), "the given file object"
+        else:
+            with open(dest, "rb") as fh:
+                data, where = fh.read(), "the given path"
+        d = tree_diff(archive_tree(zipped, data), tree_of(ref))
+        stats["snapshots_checked"] += 1
+        if d:
+            note("an explicit archive write before close() did not write one complete archive of the current tree",
+                 "%s: %s" % (where, d), nm)
+        if dest is not None and before is not None and region.data() != before:
+            note("an explicit archive write to another file changed the constructor's target", where, nm)
+    try:
+        stats["histories"] += 1
+        changes(rnd.randint(0, 2))
+        specific(name, variant)
+        changes(rnd.randint(1, 3))
+        if rnd.random() < 0.5:
+            others = specific_callables(holder["obj"], set(public_methods()))
+            specific(rnd.choice(others), rnd.randrange(3))
+            changes(rnd.randint(1, 2))
+        want = tree_of(ref)
+        final = Region(st)
+        scratch_fs = st.fs
+        with _Unraisable() as un:
+            try:
+                finalise(holder, how)
+            except Exception as e:  # noqa
+                note("finalisation after a pre-close history raised", type(e).__name__, "close")
+                return
+        if un.seen:
+            note("finalisation after a pre-close history raised", un.seen, "close")
+            return
+        d = tree_diff(archive_tree(zipped, final.data()), want)
+        if d:
+            note("finalisation after a pre-close history did not leave one complete archive of the final tree", d)
+        if not scratch_fs.isclosed() or (st.scratch_removed and st.scratch and os.path.exists(st.scratch)):
+            note("scratch filesystem survives the finalisation after a pre-close history", st.scratch)
+    except Exception as e:  # noqa
+        note("a pre-close history could not be driven", "%s: %s" % (type(e).__name__, e))
+    finally:
+        with _Unraisable():
+            holder["obj"] = None
+            ref.close()
+            st.cleanup()
+            gc.collect()
+
+
+def preclose_tempfs(rnd, thorough, methods, bad, stats):
+    from fs.memoryfs import MemoryFS
+    for auto in (True, False):
+        for how in ("close", "with", "gc"):
+            for twice in (False, True):
+                st = TempStore(auto)
+                holder = dict(obj=st.obj, st=st)
+                names = specific_callables(st.obj, methods)
+                label = "TempFS(auto_clean=%s)" % auto
+                history = []
+
+                def note(why, verdict="", method="clean"):
+                    bad.append((why, dict(construction=label, how="%s before %s" % (method, how), method=method,
+                                          verdict=str(verdict)[:300], changed=True, history=list(history))))
+                try:
+                    stats["histories"] += 1
+                    ref = MemoryFS()
+                    populate(ref)
+                    for _ in range(rnd.randint(1, 3)):
+                        ch = gen_change(rnd, ref)
+                        history.append(ch[0])
+                        apply_change(st.obj, ch)
+                        apply_change(ref, ch)
+                    ref.close()
+                    outside = walk_disk(st.work) if st.scratch is not None else None
+                    sib = open(st.sibling, "rb").read()
+                    for nm in names * (2 if twice else 1):
+                        args, _s = c18_args(st.obj, nm, 0, rnd, st)
+                        history.append(nm)
+                        verdict = c18_call(st.obj, nm, args or [])
+                        stats["specific_calls"] += 1
+                        stats["specific_seen"].add("TempFS.%s" % nm)
+                        if verdict != "ok":
+                            note("a class-specific call before close() raised", verdict, nm)
+                        if nm == "clean" and os.path.exists(st.dir):
+                            note("clean() before close() did not remove the directory", st.dir)
+                    with _Unraisable() as un:
+                        try:
+                            st.fs = None
+                            finalise(holder, how)
+                        except Exception as e:  # noqa
+                            note("finalisation after a pre-close history raised", type(e).__name__, "close")
+                    if un.seen:
+                        note("finalisation after a pre-close history raised", un.seen, "close")
+                    if os.path.exists(st.dir):
+                        note("TempFS directory exists after clean() and close()", st.dir)
+                    if open(st.sibling, "rb").read() != sib:
+                        note("finalisation after clean() touched a file next to the directory", st.sibling)
+                except Exception as e:  # noqa
+                    note("a pre-close history could not be driven", "%s: %s" % (type(e).__name__, e))
+                finally:
+                    with _Unraisable():
+                        holder["obj"] = None
+                        st.cleanup()
+                        gc.collect()
+
+
+def preclose_composites(rnd, thorough, methods, bad, stats):
+    from fs.memoryfs import MemoryFS
+    from fs.mountfs import MountFS
+    from fs.multifs import MultiFS
+    from fs.tempfs import TempFS
+    hows = ("close", "with", "gc")
+    turn = rnd.randrange(3)
+    ci = 0
+    for kind in ("mount", "multi"):
+        for auto in (True, False):
+            for zipped in (True, False):
+                for tk in (TARGET_KINDS if thorough else ("path", "bytesio")):
+                    ci += 1
+                    for how in (hows if thorough else (hows[(ci + turn) % 3],)):
+                        preclose_composite_case(rnd, kind, auto, zipped, tk, how, methods, bad, stats)
+
+
+def preclose_composite_case(rnd, kind, auto, zipped, tk, how, methods, bad, stats):
+    from fs.memoryfs import MemoryFS
+    from fs.mountfs import MountFS
+    from fs.multifs import MultiFS
+    from fs.tempfs import TempFS
+    label = "%s(auto_close=%s) over a write-mode %s(target=%s)" % ("MountFS" if kind == "mount" else "MultiFS", auto,
+                                                                  "ZipFS" if zipped else "TarFS", tk)
+    history = []
+    st = ArchStore(zipped, tk, rnd.choice(TEMP_KINDS))
+    ref = MemoryFS()
+    populate(ref)
+    comp = (MountFS if kind == "mount" else MultiFS)(auto_close=auto)
+    prefix = "a/" if kind == "mount" else ""
+    late = []                    # members that join in the middle of the history: (name, fs, temp directory or None)
+    holder = dict(obj=comp)
+
+    def note(why, verdict="", method="close"):
+        bad.append((why, dict(construction=label, how="class-specific calls and changes before %s" % how, method=method,
+                              verdict=str(verdict)[:300], changed=True, history=list(history))))
+
+    def changes(k):
+        for _ in range(k):
+            ch = gen_change(rnd, ref)
+            history.append("%s%r" % (ch[0], tuple(a if isinstance(a, str) else "<%d bytes>" % len(a) for a in ch[1])))
+            apply_change(holder["obj"], ch, prefix)
+            apply_change(ref, ch)
+            stats["changes"] += 1
+
+    def specific(nm):
+        obj = holder["obj"]
+        try:
+            params = [p for p in inspect.signature(getattr(obj, nm)).parameters.values()
+                      if p.kind not in (p.VAR_POSITIONAL, p.VAR_KEYWORD)]
+        except (TypeError, ValueError):
+            return
+        kw = {}
+        joined = None
+        for p in params:
+            if p.name == "fs":
+                member = rnd.choice(["mem", "temp"])
+                m = MemoryFS() if member == "mem" else TempFS()
+                m.writebytes("late.txt", b"late")
+                joined = m
+                kw["fs"] = m
+            elif p.name in ("path", "name") and "fs" in [q.name for q in params]:
+                kw[p.name] = "late%d" % len(late)          # a new mount point / member name
+            elif p.name == "name":
+                kw[p.name] = "a"
+            elif p.name == "path":
+                kw[p.name] = prefix + "f.txt"
+            elif p.name == "priority":
+                kw[p.name] = -1                             # reads keep coming from the archive member
+            elif p.name == "write":
+                kw[p.name] = False
+            elif p.default is inspect.Parameter.empty:
+                kw[p.name] = None
+        history.append("%s(%s)" % (nm, ", ".join("%s=%s" % (k, type(v).__name__ if k == "fs" else repr(v))
+                                                 for k, v in sorted(kw.items()))))
+        verdict, value = call(obj, nm, [], kw)
+        stats["specific_calls"] += 1
+        stats["specific_seen"].add("%s.%s" % (type(obj).__name__, nm))
+        if joined is not None:
+            if verdict == "ok":
+                late.append((kw.get("path") or kw.get("name"), joined,
+                             joined.getsyspath("/") if joined.hassyspath("/") else None))
+            else:
+                joined.close()
+        if verdict != "ok":
+            note("a class-specific call before close() raised", verdict, nm)
+    try:
+        stats["histories"] += 1
+        if kind == "mount":
+            comp.mount("a", st.obj)
+        else:
+            comp.add_fs("a", st.obj, write=True)
+        names = specific_callables(comp, methods)
+        changes(rnd.randint(1, 2))
+        order = list(names)
+        rnd.shuffle(order)
+        for nm in order:
+            specific(nm)
+            changes(rnd.randint(1, 2))
+        want = tree_of(ref)
+        final = Region(st)
+        with _Unraisable() as un:
+            try:
+                finalise(holder, how)
+            except Exception as e:  # noqa
+                note("finalisation after a pre-close history raised", type(e).__name__)
+                return
+        if un.seen:
+            note("finalisation after a pre-close history raised", un.seen)
+            return
+        comp = None
+        for nm, m, d in late:
+            if m.isclosed() != auto:
+                note("members closed iff auto_close violated (member joined before close)", "%s closed=%s" % (nm, m.isclosed()),
+                     "mount" if kind == "mount" else "add_fs")
+            if d is not None and os.path.exists(d) != (not auto):
+                note("TempFS member's directory removed iff auto_close violated", d)
+        if st.obj.isclosed() != auto:
+            note("members closed iff auto_close violated", "archive member closed=%s" % st.obj.isclosed())
+        if auto:
+            d = tree_diff(archive_tree(zipped, final.data()), want)
+            if d:
+                note("finalisation after a pre-close history did not leave one complete archive of the final tree", d)
+        else:
+            if final.data() != b"" and tk != "path" or (tk == "path" and os.path.exists(st.target)):
+                note("a composite without auto_close wrote its member's archive", len(final.data()))
+            if tree_of(st.obj) != want:
+                note("a member of a composite without auto_close lost data when the composite was finalised")
+            st.obj.close()
+            d = tree_diff(archive_tree(zipped, final.data()), want)
+            if d:
+                note("finalisation after a pre-close history did not leave one complete archive of the final tree", d)
+    except Exception as e:  # noqa
+        note("a pre-close history could not be driven", "%s: %s" % (type(e).__name__, e))
+    finally:
+        with _Unraisable():
+            holder["obj"] = None
+            comp = None
+            for _nm, m, d in late:
+                try:
+                    m.close()
+                except Exception:  # noqa
+                    pass
+                if d is not None:
+                    shutil.rmtree(d, ignore_errors=True)
+            ref.close()
+            st.cleanup()
+            gc.collect()
+
+
+def preclose_probe(rnd, thorough, methods, bad):
+    stats = dict(histories=0, changes=0, specific_calls=0, snapshots_checked=0, specific_seen=set())
+    methods = set(methods)
+    preclose_archives(rnd, thorough, methods, bad, stats)
+    preclose_tempfs(rnd, thorough, methods, bad, stats)
+    preclose_composites(rnd, thorough, methods, bad, stats)
+    return dict(preclose_histories=stats["histories"], preclose_data_changes=stats["changes"],
+                preclose_class_specific_calls=stats["specific_calls"],
+                preclose_class_specific_callables=sorted(stats["specific_seen"]),
+                preclose_explicit_archive_writes_checked=stats["snapshots_checked"],
+                preclose_rule="write-mode ZipFS / TarFS (every target kind x scratch temp_fs kind) x every class-specific "
+                              "public callable (reflection) x 3 argument variants (file = the constructor's target / a "
+                              "fresh BytesIO / another path) called between random data changes (write, overwrite, "
+                              "append, remove, move, copy, makedir, removetree; mirrored on a reference MemoryFS), a "
+                              "second class-specific call in half of the histories, then close / with-block / drop + "
+                              "gc (quick: one of the three per history, rotating; thorough: all): the bytes the "
+                              "finalisation left on the target are ONE complete archive of the FINAL reference tree "
+                              "(zipfile / tarfile), every explicit write_zip / write_tar left one of the tree at that "
+                              "moment; TempFS x auto_clean x clean() once / twice before close; MountFS / MultiFS x "
+                              "auto_close x archive member x every class-specific callable (mount / add_fs of a late "
+                              "MemoryFS / TempFS member, get_fs, iterate_fs, which) between changes made through the "
+                              "composite: members (late ones included) closed and finalised iff auto_close")
+
+
+# ---- (b) garbage collection as the only finalisation, for every FS class of the library
+
+def library_fs_classes():
+    """{qualified name: class} of every subclass of FS defined in a module of the fs package; import failures."""
+    import importlib
+    import pkgutil
+    import fs as fspkg
+    from fs.base import FS
+    found, failed = {}, []
+    for m in pkgutil.walk_packages(fspkg.__path__, "fs."):
+        try:
+            mod = importlib.import_module(m.name)
+        except Exception as e:  # noqa
+            failed.append("%s (%s)" % (m.name, type(e).__name__))
+            continue
+        for v in list(vars(mod).values()):
+            if inspect.isclass(v) and issubclass(v, FS) and v.__module__ == mod.__name__:
+                found["%s.%s" % (v.__module__, v.__name__)] = v
+    return found, failed
+
+
+class _CloseCounter(object):
+    """Counts the calls of close() on ONE object (by identity) while active, by shadowing close on its concrete class."""
+    def __init__(self, obj):
+        self.cls = type(obj)
+        self.ident = id(obj)
+        self.calls = 0
+
+    def __enter__(self):
+        cls = self.cls
+        self.had = "close" in cls.__dict__
+        self.orig = cls.__dict__.get("close")
+        inner = cls.close
+        counter = self
+
+        def close(self_, *a, **kw):
+            if id(self_) == counter.ident:
+                counter.calls += 1
+            return inner(self_, *a, **kw)
+        cls.close = close
+        return self
+
+    def __exit__(self, *a):
+        if self.had:
+            self.cls.close = self.orig
+        else:
+            del self.cls.close
+
+
+def _open_fds(path):
+    n = 0
+    try:
+        for fd in os.listdir("/proc/self/fd"):
+            try:
+                if os.readlink("/proc/self/fd/" + fd) == path:
+                    n += 1
+            except OSError:
+                pass
+    except OSError:
+        return None
+    return n
+
+
+def gc_recipes(thorough):
+    """{qualified class name: [(label, make)]}; make() -> dict(obj=<the filesystem, used>, after=<callable returning a
+    list of (why, detail) once the object is gone>, cleanup=<callable>)."""
+    import fs.appfs
+    from fs.memoryfs import MemoryFS
+    from fs.mountfs import MountFS
+    from fs.multifs import MultiFS
+    from fs.osfs import OSFS
+    from fs.subfs import SubFS, ClosingSubFS
+    from fs.tarfs import TarFS, WriteTarFS, ReadTarFS
+    from fs.tempfs import TempFS
+    from fs.wrap import read_only, cache_directory
+    from fs.wrapfs import WrapFS
+    from fs.zipfs import ZipFS, WriteZipFS, ReadZipFS
+    R = {}
+
+    def add(cls, label, make):
+        R.setdefault("%s.%s" % (cls.__module__, cls.__name__), []).append((label, make))
+
+    def simple(build):
+        def make():
+            tmp = tempfile.mkdtemp(prefix="pyfs2verif_gc_")
+            try:
+                obj = build(tmp)
+                populate(obj)
+            except Exception:
+                shutil.rmtree(tmp, ignore_errors=True)
+                raise
+            return dict(obj=obj, after=lambda: [], cleanup=lambda: shutil.rmtree(tmp, ignore_errors=True))
+        return make
+    add(MemoryFS, "MemoryFS()", simple(lambda tmp: MemoryFS()))
+    add(OSFS, "OSFS(dir)", simple(lambda tmp: OSFS(tmp)))
+
+    # TempFS: the directory goes iff auto_clean
+    for auto in (True, False):
+        def make(auto=auto):
+            st = TempStore(auto)
+            d = st.dir
+
+            def after():
+                return [] if os.path.exists(d) != auto else [
+                    ("TempFS directory removed iff auto_clean violated by garbage collection", "exists=%s" % os.path.exists(d))]
+            obj, st.obj, st.fs = st.obj, None, None
+            return dict(obj=obj, after=after, cleanup=st.cleanup)
+        add(TempFS, "TempFS(auto_clean=%s)" % auto, make)
+
+    # views and wrappers: the view is closed, a plain SubFS / wrapper leaves its parent open
+    def view(wrap, parent_kind, closes_parent):
+        def make():
+            st = Store(parent_kind)
+            obj = wrap(st.fs)
+            obj.writebytes("via.txt", b"via")
+
+            def after():
+                if st.fs.isclosed() != closes_parent:
+                    return [("%s when its view is garbage-collected" % (
+                        "the parent of a ClosingSubFS is not closed" if closes_parent else "the parent filesystem is closed"),
+                        "parent closed=%s" % st.fs.isclosed())]
+                return []
+            return dict(obj=obj, after=after, cleanup=st.cleanup)
+        return make
+    for pk in ("mem", "os"):
+        add(SubFS, "SubFS(%s)" % pk, view(lambda p: p.opendir("d"), pk, False))
+        add(ClosingSubFS, "ClosingSubFS(%s)" % pk, view(lambda p: p.opendir("d", factory=ClosingSubFS), pk, True))
+        add(WrapFS, "WrapFS(%s)" % pk, view(lambda p: WrapFS(p), pk, False))
+    add(SubFS, "SubFS(SubFS(mem))", view(lambda p: p.opendir("d").opendir("sub"), "mem", False))
+    add(ClosingSubFS, "ClosingSubFS(SubFS(mem)) via opendir of a view",
+        view(lambda p: p.opendir("d").opendir("sub", factory=ClosingSubFS), "mem", False))
+
+    def ro_view(wrap):
+        def make():
+            st = Store("mem")
+            obj = wrap(st.fs)
+            obj.listdir("/"), obj.readbytes("f.txt")
+            return dict(obj=obj, after=lambda: [], cleanup=st.cleanup)
+        return make
+    from fs.wrap import WrapReadOnly, WrapCachedDir
+    add(WrapReadOnly, "read_only(mem)", ro_view(read_only))
+    add(WrapCachedDir, "cache_directory(mem)", ro_view(cache_directory))
+
+    # ClosingSubFS over a TempFS / a write-mode archive (what open_fs('temp://.../d'), open_fs('zip://a.zip!/d') build)
+    def closing_temp():
+        st = TempStore(True)
+        d = st.dir
+        obj = st.obj.opendir("d", factory=ClosingSubFS)
+        parent, st.obj, st.fs = st.obj, None, None
+
+        def after():
+            out = []
+            if not parent.isclosed():
+                out.append(("the parent of a ClosingSubFS is not closed when its view is garbage-collected", "TempFS"))
+            if os.path.exists(d):
+                out.append(("TempFS directory survives the garbage collection of its ClosingSubFS", d))
+            return out
+        return dict(obj=obj, after=after, cleanup=lambda: (parent.close(), st.cleanup()))
+    add(ClosingSubFS, "ClosingSubFS(TempFS)", closing_temp)
+
+    # write-mode archives: one complete archive of what was stored, scratch closed / gone, written exactly once
+    def archive(zipped, tk, mk, through):
+        def make():
+            import fs.zipfs
+            import fs.tarfs
+            st = ArchStore(zipped, tk, mk)
+            parent = st.obj
+            parent.writebytes("d/sub/late.bin", b"late")
+            want = tree_of(parent)
+            region = Region(st)
+            scratch_fs = st.fs
+            mod, attr = (fs.zipfs, "write_zip") if zipped else (fs.tarfs, "write_tar")
+            orig = getattr(mod, attr)
+            writes = []
+
+            def counting(*a, **kw):
+                writes.append(1)
+                return orig(*a, **kw)
+            setattr(mod, attr, counting)
+            if through == "direct":
+                obj = parent
+            else:
+                obj = parent.opendir("d", factory=ClosingSubFS)
+            st.obj = None
+            parent = None
+
+            def after():
+                out = []
+                d = tree_diff(archive_tree(zipped, region.data()), want)
+                if d:
+                    out.append(("garbage collection of a write-mode archive did not leave one complete archive of its tree", d))
+                if len(writes) != 1:
+                    out.append(("garbage collection of a write-mode archive wrote the archive %d times" % len(writes), ""))
+                if not scratch_fs.isclosed() or (st.scratch_removed and st.scratch and os.path.exists(st.scratch)):
+                    out.append(("scratch filesystem survives the garbage collection of a write-mode archive", st.scratch))
+                return out
+
+            def cleanup():
+                setattr(mod, attr, orig)
+                st.cleanup()
+            return dict(obj=obj, after=after, cleanup=cleanup)
+        return make
+    for zipped, fac, wcls in ((True, ZipFS, WriteZipFS), (False, TarFS, WriteTarFS)):
+        for tk in TARGET_KINDS:
+            for mk in TEMP_KINDS:
+                nm = "ZipFS" if zipped else "TarFS"
+                add(wcls, "%s(target=%s, temp_fs=%s, write=True)" % (nm, tk, mk), archive(zipped, tk, mk, "direct"))
+            add(fac, "%s(target=%s, write=True) [the factory returns %s]" % (nm, tk, wcls.__name__),
+                archive(zipped, tk, "default", "direct"))
+            add(ClosingSubFS, "ClosingSubFS(write-mode %s, target=%s)" % (nm, tk), archive(zipped, tk, "default", "view"))
+
+    # read-mode archives: the file opened for a path target is closed again
+    def reader(zipped, tk, direct):
+        def make():
+            st = ReadArchStore(zipped, tk)
+            path = os.path.join(st.work, "r.zip" if zipped else "r.tar")
+            obj, st.obj, st.fs = st.obj, None, None
+            if direct:
+                obj.close()
+                cls = (ReadZipFS if zipped else ReadTarFS)
+                obj = cls(path if tk == "path" else io.BytesIO(open(path, "rb").read()))
+            obj.listdir("/"), obj.readbytes("f.txt")
+
+            def after():
+                n = _open_fds(path)
+                if tk == "path" and n:
+                    return [("the archive file is still open after its read-mode filesystem was garbage-collected", "%d descriptors" % n)]
+                return []
+            return dict(obj=obj, after=after, cleanup=st.cleanup)
+        return make
+    for zipped, fac, rcls in ((True, ZipFS, ReadZipFS), (False, TarFS, ReadTarFS)):
+        for tk in ("path", "bytesio"):
+            add(rcls, "%s(source=%s)" % (rcls.__name__, tk), reader(zipped, tk, True))
+            add(fac, "%s(source=%s) [the factory returns %s]" % (fac.__name__, tk, rcls.__name__), reader(zipped, tk, False))
+
+    # composites: members closed / finalised iff auto_close
+    def composite(kind, auto):
+        def make():
+            comp = (MountFS if kind == "mount" else MultiFS)(auto_close=auto)
+            st = ArchStore(True, "path", "default")
+            arch = st.obj
+            tst = TempStore(True)
+            temp = tst.obj
+            mem = Store("mem")
+            if kind == "mount":
+                comp.mount("arch", arch), comp.mount("temp", temp), comp.mount("mem", mem.fs)
+                comp.writebytes("arch/via-composite.txt", b"via"), comp.writebytes("temp/x", b"x")
+                comp.writebytes("top.txt", b"default filesystem")
+            else:
+                comp.add_fs("mem", mem.fs), comp.add_fs("temp", temp), comp.add_fs("arch", arch, write=True)
+                comp.writebytes("via-composite.txt", b"via")
+            comp.listdir("/")
+            want = tree_of(arch)
+            region = Region(st)
+
+            def after():
+                out = []
+                for nm, m in (("archive", arch), ("TempFS", temp), ("MemoryFS", mem.fs)):
+                    if m.isclosed() != auto:
+                        out.append(("members closed iff auto_close violated by garbage collection", "%s closed=%s" % (nm, m.isclosed())))
+                if os.path.exists(tst.dir) != (not auto):
+                    out.append(("TempFS member's directory removed iff auto_close violated by garbage collection", tst.dir))
+                if auto:
+                    d = tree_diff(archive_tree(True, region.data()), want)
+                    if d:
+                        out.append(("garbage collection of an auto_close composite did not leave one complete archive of "
+                                    "its member's tree", d))
+                elif os.path.exists(st.target):
+                    out.append(("a composite without auto_close wrote its member's archive when garbage-collected", ""))
+                return out
+
+            def cleanup():
+                for c in (st, tst, mem):
+                    c.cleanup()
+            return dict(obj=comp, after=after, cleanup=cleanup)
+        return make
+    for auto in (True, False):
+        add(MountFS, "MountFS(auto_close=%s) over a write-mode ZipFS, a TempFS, a MemoryFS" % auto, composite("mount", auto))
+        add(MultiFS, "MultiFS(auto_close=%s) over a write-mode ZipFS, a TempFS, a MemoryFS" % auto, composite("multi", auto))
+
+    # application directories (private HOME / XDG_* for the time of the construction)
+    def app(cls):
+        def make():
+            tmp = tempfile.mkdtemp(prefix="pyfs2verif_gc_")
+            keys = ("HOME", "XDG_DATA_HOME", "XDG_CONFIG_HOME", "XDG_CACHE_HOME", "XDG_STATE_HOME", "XDG_DATA_DIRS",
+                    "XDG_CONFIG_DIRS")
+            old = dict((k, os.environ.get(k)) for k in keys)
+            try:
+                os.environ["HOME"] = tmp
+                for k in keys[1:]:
+                    os.environ[k] = os.path.join(tmp, k.lower())
+                obj = cls("pyfs2verif", author="verif", version="1", create=True)
+                root = obj.getsyspath("/")
+                if not os.path.realpath(root).startswith(os.path.realpath(tmp)):
+                    obj.close()
+                    raise RuntimeError("application directory outside the private HOME: %s" % root)
+                populate(obj)
+            except Exception:
+                shutil.rmtree(tmp, ignore_errors=True)
+                raise
+            finally:
+                for k, v in old.items():
+                    if v is None:
+                        os.environ.pop(k, None)
+                    else:
+                        os.environ[k] = v
+            return dict(obj=obj, after=lambda: [], cleanup=lambda: shutil.rmtree(tmp, ignore_errors=True))
+        return make
+    for name in fs.appfs.__all__:
+        cls = getattr(fs.appfs, name)
+        add(cls, "%s('pyfs2verif', create=True) in a private HOME" % name, app(cls))
+
+    # FTPFS against the loop-back server: the control connection is closed
+    def ftp():
+        import time
+        import ftpserver
+        from pyftpdlib.handlers import FTPHandler
+        srv = ftpserver.start("normal")
+        try:
+            obj = srv.connect()
+            obj.writebytes("f.txt", b"hello")
+            obj.listdir("/")
+        except Exception:
+            srv.stop()
+            raise
+
+        def controls():
+            loop = srv.ioloop
+            return 0 if loop is None else sum(1 for h in list(loop.socket_map.values()) if isinstance(h, FTPHandler))
+        n0 = controls()
+
+        def after():
+            end = time.time() + 2.0
+            while controls() and time.time() < end:
+                time.sleep(0.005)
+            if controls():
+                return [("the FTP control connection is still open after the FTPFS was garbage-collected",
+                         "%d connection(s), %d while in use" % (controls(), n0))]
+            return []
+        return dict(obj=obj, after=after, cleanup=srv.stop)
+    try:
+        import ftpserver
+        from fs.ftpfs import FTPFS
+        ok, why = ftpserver.available()
+        if ok:
+            add(FTPFS, "FTPFS(loop-back server)", ftp)
+        else:
+            R.setdefault("fs.ftpfs.FTPFS", [])
+            R["__skipped__"] = ["fs.ftpfs.FTPFS: no loop-back FTP server here (%s)" % why]
+    except Exception as e:  # noqa
+        R["__skipped__"] = ["fs.ftpfs.FTPFS: %s" % type(e).__name__]
+    return R
+
+
+def gc_only_probe(thorough, bad):
+    import weakref
+    classes, import_failures = library_fs_classes()
+    recipes = gc_recipes(thorough)
+    skipped = recipes.pop("__skipped__", [])
+    no_recipe, abstract = [], []
+    ran = 0
+    per_class = {}
+    for qn in sorted(classes):
+        cls = classes[qn]
+        if inspect.isabstract(cls) or cls.__name__.startswith("_"):
+            abstract.append(qn)
+            continue
+        if not recipes.get(qn):
+            if not any(s.startswith(qn) for s in skipped):
+                no_recipe.append(qn)
+            continue
+        for label, make in recipes[qn]:
+            def note(why, verdict=""):
+                bad.append((why, dict(construction=label, how="used, last reference dropped, gc.collect(); never closed",
+                                      method="__del__", verdict=str(verdict)[:300], changed=False, fs_class=qn)))
+            with _Unraisable() as un0:
+                try:
+                    rec = make()
+                except Exception as e:  # noqa
+                    note("a filesystem for the garbage-collection probe could not be built", "%s: %s" % (type(e).__name__, e))
+                    gc.collect()
+                    continue
+            try:
+                obj = rec.pop("obj")
+                if obj.isclosed():
+                    note("a filesystem for the garbage-collection probe could not be built", "closed before use ended")
+                    continue
+                ref = weakref.ref(obj)
+                with _CloseCounter(obj) as counter, _Unraisable() as un:
+                    del obj
+                    gc.collect()
+                ran += 1
+                per_class[qn] = per_class.get(qn, 0) + 1
+                if ref() is not None:
+                    note("a dropped filesystem is not collected", "still referenced")
+                    continue
+                if un.seen:
+                    note("the finaliser of a dropped filesystem raised", un.seen)
+                if counter.calls != 1:
+                    note("close() did not run exactly once for a filesystem that was dropped without close()",
+                         "%d calls" % counter.calls)
+                for why, detail in rec["after"]():
+                    note(why, detail)
+            finally:
+                with _Unraisable():
+                    obj = None
+                    try:
+                        rec["cleanup"]()
+                    except Exception:  # noqa
+                        pass
+                    rec = None
+                    gc.collect()
+    for qn in no_recipe:
+        bad.append(("a filesystem class of the library has no garbage-collection recipe in the harness",
+                    dict(construction=qn, how="reflection over fs.*", method="__del__", verdict="", changed=False)))
+    return dict(gc_only_classes_found=sorted(classes), gc_only_classes_abstract_or_private=abstract,
+                gc_only_constructions_per_class=per_class, gc_only_constructions=ran,
+                gc_only_classes_without_recipe=no_recipe, gc_only_skipped=skipped,
+                gc_only_import_failures=import_failures,
+                gc_only_rule="every subclass of fs.base.FS defined in a module of the fs package (pkgutil over fs.*): built, "
+                             "used, last reference dropped, gc.collect(), never closed -> close() ran exactly once "
+                             "(counted on the concrete class), no finaliser raised, and from outside the object: "
+                             "write-mode ZipFS/TarFS (every target x temp_fs kind, direct / through the ZipFS/TarFS "
+                             "factory / through a ClosingSubFS) left ONE complete archive of their tree written exactly "
+                             "once and no scratch directory; TempFS directory gone iff auto_clean; ClosingSubFS closed "
+                             "its parent (MemoryFS, OSFS, TempFS, archive), SubFS / WrapFS did not; MountFS / MultiFS "
+                             "closed and finalised their members (archive, TempFS, MemoryFS) iff auto_close; read-mode "
+                             "archives released the descriptor of a path source; FTPFS closed its control connection; "
+                             "application directories in a private HOME")
 
 
 def finalisers_probe():
